@@ -86,7 +86,7 @@ class Ctx:
         return self.fresh(name, sort)
 
     def assume(self, f):
-        from .spec import Forall, Using
+        from .spec import Forall, Using, Focus
         if isinstance(f, Using):
             f = f.goal
         if isinstance(f, Forall):
@@ -114,7 +114,7 @@ class Ctx:
         return f
 
     def prove(self, name, goal, node=None, kind="post"):
-        from .spec import Forall, Using
+        from .spec import Forall, Using, Focus
         if self.scopes and is_z3(goal):
             goal = self._generalise(goal) if any(_mentions(goal, v) for vs, _ in self.scopes for v in vs) else goal
             self.obligs.append(Oblig(name, list(self.facts), z3.simplify(goal), _loc(node), kind))
@@ -123,6 +123,12 @@ class Ctx:
             for f in goal.lemmas:
                 self.assume(f)
             return self.prove(name, goal.goal, node, kind)
+        if isinstance(goal, Focus):
+            g = z3.simplify(goal.goal)
+            hyps = [h for h in self.facts if not any(_mentions(h, w) for w in goal.without)]
+            self.obligs.append(Oblig(name, hyps, g, _loc(node), kind))
+            self.assume(g)
+            return
         if isinstance(goal, Forall):
             cs, seeds, body = goal.skolemized(self)
             hyps = list(self.facts)
